@@ -1,13 +1,14 @@
 import SE.Spec.Mapping
 /-
-Statement vocabulary for C11: the reference names a template mentions (as `regexp.Expand` and
-`expandSpec` scan it), and the decidable guard `SafeTemplate` under which the glob formatter
+Statement vocabulary for C11: the reference names a template mentions (as `expandSpec` scans it; and
+`regexp.Expand` too when no name is directly followed by a byte ≥ 0x80, `refsAsciiFollowed`), and the decidable guard `SafeTemplate` under which the glob formatter
 (with the repaired reference regex `\$\{?([a-zA-Z0-9_]+)\}?`) provably agrees with `expandSpec`.
 -/
 namespace SE
 
-/-- the names of the references met by the left-to-right scan of `rxExpand` / `expandSpec`
-    (same recursion, same fuel) -/
+/-- the names of the references met by the left-to-right scan of `expandSpec` (same recursion, same
+    fuel; ASCII names). `rxExpand` — Go's rune-wise name scan — meets the same names exactly when
+    `refsAsciiFollowed` below holds. -/
 def refNames : Nat → Bytes → List Bytes
   | 0, _ => []
   | _, [] => []
@@ -46,9 +47,10 @@ def refTexts : List Seg → List Bytes
   | .ref b ds :: segs => refText b ds :: refTexts segs
 
 /-- what may follow a reference: after a braced one anything; after a bare `$ds` either the end of
-    the template or a byte outside `[a-zA-Z0-9_}]` — in particular `$`, the start of the next
-    reference (a word byte would not be "following" but part of the name; a `}` would be swallowed
-    by the formatter's regex) -/
+    the template or an ASCII byte (`< 0x80`) outside `[a-zA-Z0-9_}]` — in particular `$`, the start of
+    the next reference (a word byte would not be "following" but part of the name; a `}` would be
+    swallowed by the formatter's regex; a byte ≥ 0x80 may start a Unicode letter, which Go's
+    `regexp.Expand` — scanning names rune by rune — takes into the name: `$1é`) -/
 def followOk : List Seg → Bool
   | [] => true
   | .lit _ :: segs => followOk segs
@@ -56,7 +58,7 @@ def followOk : List Seg → Bool
   | .ref false _ :: segs =>
     (match flatSegs segs with
      | [] => true
-     | c :: _ => !isWordByte c && c != cRBrace) && followOk segs
+     | c :: _ => !isWordByte c && c != cRBrace && c < 0x80) && followOk segs
 
 /-- per-segment conditions: literals contain neither `$` nor `%`; a reference name is a non-empty
     run of `[A-Za-z0-9_]` that is either a decimal number as `regexp.Expand` reads it (no leading
@@ -90,8 +92,10 @@ def segsOf : Nat → Bytes → Bytes → List Seg
     * no literal contains `$` or `%` (so every `$` starts a reference, and there is no `$$`),
     * every reference is `$name` or `${name}`, `name` a non-empty run of `[A-Za-z0-9_]` that is
       either a decimal number without leading zero of ≤ 8 digits, or not purely numeric,
-    * a bare `$name` is followed by the end of the template or by a byte outside `[a-zA-Z0-9_}]`
-      (so no `}` follows directly; another reference may: `$1$2`, `$1${2}`),
+    * a bare `$name` is followed by the end of the template or by an ASCII byte (`< 0x80`) outside
+      `[a-zA-Z0-9_}]` (so no `}` follows directly; another reference may: `$1$2`, `$1${2}`; a
+      non-ASCII byte may not: `$1é`, where the regex side's `regexp.Expand` reads the name `1é` —
+      literals may contain non-ASCII bytes anywhere else: `é$1-x`, `${1}é`),
     * no reference text is a proper prefix of another one (`$1` and `$11` together are out;
       `$1` and `${11}` are fine).
     The two remaining defects of the formatter (`100%-$1`, `$1-$11`) violate exactly one of these
@@ -99,6 +103,35 @@ def segsOf : Nat → Bytes → Bytes → List Seg
 def SafeTemplate (tmpl : Bytes) : Bool :=
   let segs := segsOf tmpl.length [] tmpl
   flatSegs segs == tmpl && SafeSegs segs
+
+/-- the byte after the ASCII name run of `s` (the text after a `$`; an optional `{` is skipped first)
+    is absent or ASCII (`< 0x80`). Then Go's rune-wise name scan (`rxExtractU`) stops exactly where
+    the ASCII scan of the specification (`rxExtract`) does. -/
+def asciiAfterName (s : Bytes) : Bool :=
+  let s1 := match s with
+    | b :: r => if b == cLBrace then r else s
+    | [] => []
+  match s1.dropWhile isWordByte with
+  | [] => true
+  | c :: _ => c < 0x80
+
+/-- `asciiAfterName` at every `$` the left-to-right scan of `rxExpand` / `expandSpec` examines (same
+    recursion and fuel as `refNames`; it is also asked where the ASCII scan finds no name: `$é` is a
+    reference for `regexp.Expand`). **The guard of the regex-side C11 theorem**: no reference name —
+    bare or braced — and no lone `$` is directly followed by a byte ≥ 0x80. -/
+def refsAsciiFollowed : Nat → Bytes → Bool
+  | 0, _ => true
+  | _, [] => true
+  | fuel + 1, b :: rest =>
+    if b == cDollar then
+      match rest with
+      | c :: rest' =>
+        if c == cDollar then refsAsciiFollowed fuel rest'
+        else asciiAfterName rest && (match rxExtract rest with
+          | none => refsAsciiFollowed fuel rest
+          | some (_, r) => refsAsciiFollowed fuel r)
+      | [] => true
+    else refsAsciiFollowed fuel rest
 
 /-- the template contains two adjacent `$` (for `regexp.Expand` and `expandSpec` the escape `$$`;
     the formatter's regex sees no reference in it and copies both) -/
